@@ -52,6 +52,7 @@
 #include <sys/types.h>
 #include <sys/wait.h>
 #include <unistd.h>
+#include <csignal>
 
 #define private public
 #define protected public
@@ -104,7 +105,7 @@ static void emitRuns(vio::Out & o, const std::vector<Run> & runs) {
 
 // run f in a forked child (process-wide statics in their initial state, as inherited from a
 // parent that never touches them) and bring its tokens back
-static Run forked(const std::function<void(Run &)> & f) {
+static Run forked(const std::function<void(Run &)> & f, unsigned alarmSeconds = 0) {
     int fd[2];
     if (pipe(fd) != 0) throw std::runtime_error("pipe");
     std::fflush(nullptr);
@@ -112,6 +113,7 @@ static Run forked(const std::function<void(Run &)> & f) {
     if (pid < 0) throw std::runtime_error("fork");
     if (pid == 0) {
         close(fd[0]);
+        if (alarmSeconds) alarm(alarmSeconds);
         Run r;
         try { f(r); } catch (const std::exception & e) { r.v.clear(); r.s(std::string("THROW_") + vio::exnName(e)); }
         std::string all;
@@ -126,6 +128,8 @@ static Run forked(const std::function<void(Run &)> & f) {
     while ((n = read(fd[0], buf, sizeof buf)) > 0) all.append(buf, n);
     close(fd[0]);
     int st = 0; waitpid(pid, &st, 0);
+    if (WIFSIGNALED(st) && WTERMSIG(st) == SIGALRM) { Run r; r.s("CHILD_TIMEOUT"); return r; }
+    if (WIFSIGNALED(st)) { Run r; r.s("CHILD_SIGNAL_" + std::to_string(WTERMSIG(st))); return r; }
     if (!WIFEXITED(st) || WEXITSTATUS(st) != 0) throw std::runtime_error("child failed");
     Run r; std::istringstream is(all); std::string t;
     while (is >> t) r.v.push_back(t);
@@ -300,7 +304,8 @@ static void scenarioAmdpModel(vio::Cursor & c, vio::Out & o) {
 
 // ------------------------------------------------------------------ scenario: MDP solver reuse
 // vi <h> <tol> <repr> <mdp1> <mdp2>      pi <h> <tol> <repr> <mdp1> <mdp2>
-//   run 0: fresh solver on mdp2;  run 1: same-parameter solver used on mdp1 first;  run 2: on mdp2, mdp1, then mdp2
+//   run 0: fresh solver on mdp2;  run 1: same-parameter solver used on mdp1 first;  run 2: on mdp2, mdp1, then mdp2;
+//   run 3: on mdp2 twice (second result)
 template <typename M>
 static void dumpVI(Run & r, MDP::ValueIteration & s, const M & m) {
     auto [var, vf, q] = s(m); r.d(var); dumpMdpVF(r, vf); dumpMat(r, q);
@@ -310,7 +315,7 @@ static void scenarioVI(vio::Cursor & c, vio::Out & o, bool pi) {
     MdpT t1 = readMdp(c), t2 = readMdp(c);
     auto m1 = mkMdp(t1), m2 = mkMdp(t2);
     MDP::SparseModel s1(m1), s2(m2);
-    std::vector<Run> runs(3);
+    std::vector<Run> runs(4);
     if (!pi) {
         auto call = [&](Run & r, MDP::ValueIteration & s, int which) {
             // repr: dense | sparse | mixed (problem 1 dense, problem 2 sparse)
@@ -321,6 +326,7 @@ static void scenarioVI(vio::Cursor & c, vio::Out & o, bool pi) {
         { MDP::ValueIteration s(h, tol); call(runs[0], s, 2); }
         { MDP::ValueIteration s(h, tol); call(scratch, s, 1); call(runs[1], s, 2); }
         { MDP::ValueIteration s(h, tol); call(scratch, s, 2); call(scratch, s, 1); call(runs[2], s, 2); }
+        { MDP::ValueIteration s(h, tol); call(scratch, s, 2); call(runs[3], s, 2); }
     } else {
         auto call = [&](Run & r, MDP::PolicyIteration & s, int which) {
             if (which == 1) { if (repr == "sparse") dumpMat(r, s(s1)); else dumpMat(r, s(m1)); }
@@ -330,6 +336,7 @@ static void scenarioVI(vio::Cursor & c, vio::Out & o, bool pi) {
         { MDP::PolicyIteration s(h, tol); call(runs[0], s, 2); }
         { MDP::PolicyIteration s(h, tol); call(scratch, s, 1); call(runs[1], s, 2); }
         { MDP::PolicyIteration s(h, tol); call(scratch, s, 2); call(scratch, s, 1); call(runs[2], s, 2); }
+        { MDP::PolicyIteration s(h, tol); call(scratch, s, 2); call(runs[3], s, 2); }
     }
     emitRuns(o, runs);
 }
@@ -342,12 +349,13 @@ static void pomdpReuse(std::vector<Run> & runs, unsigned h, const POMDP::Model<M
     { Solver s(h, 0.0); solve(&runs[0], s, m2); }
     { Solver s(h, 0.0); solve(nullptr, s, m1); solve(&runs[1], s, m2); }
     { Solver s(h, 0.0); solve(nullptr, s, m2); solve(nullptr, s, m1); solve(&runs[2], s, m2); }
+    { Solver s(h, 0.0); solve(nullptr, s, m2); solve(&runs[3], s, m2); }
 }
 static void scenarioPomdp(vio::Cursor & c, vio::Out & o) {
     std::string alg = c.next(); unsigned h = (unsigned) c.nextSize();
     PomdpT t1 = readPomdp(c), t2 = readPomdp(c);
     auto m1 = mkPomdp(t1), m2 = mkPomdp(t2);
-    std::vector<Run> runs(3);
+    std::vector<Run> runs(4);
     if (alg == "ip") pomdpReuse<POMDP::IncrementalPruning>(runs, h, m1, m2);
     else if (alg == "wit") pomdpReuse<POMDP::Witness>(runs, h, m1, m2);
     else if (alg == "ls") pomdpReuse<POMDP::LinearSupport>(runs, h, m1, m2);
@@ -365,10 +373,16 @@ static void scenarioSarsop(vio::Cursor & c, vio::Out & o) {
         auto [lb, ub, vl, q] = s(m, b);
         if (r) { r->d(lb); r->d(ub); dumpVList(*r, vl); dumpMat(*r, q); }
     };
-    std::vector<Run> runs(3);
-    { POMDP::SARSOP s(tol); solve(&runs[0], s, m2, b2); }
-    { POMDP::SARSOP s(tol); solve(nullptr, s, m1, b1); solve(&runs[1], s, m2, b2); }
-    { POMDP::SARSOP s(tol); solve(nullptr, s, m2, b2); solve(nullptr, s, m1, b1); solve(&runs[2], s, m2, b2); }
+    // SARSOP has no iteration bound and (until fixes/C12-sawtooth-weights.patch) may read an empty
+    // point list: the three runs are made in one forked child with a 10 s alarm; the child returns
+    // the runs separated by "|" tokens
+    Run all = forked([&](Run & r) {
+        { POMDP::SARSOP s(tol); solve(&r, s, m2, b2); } r.s("|");
+        { POMDP::SARSOP s(tol); solve(nullptr, s, m1, b1); solve(&r, s, m2, b2); } r.s("|");
+        { POMDP::SARSOP s(tol); solve(nullptr, s, m2, b2); solve(nullptr, s, m1, b1); solve(&r, s, m2, b2); }
+    }, 10);
+    std::vector<Run> runs(1);
+    for (const auto & t : all.v) { if (t == "|") runs.emplace_back(); else runs.back().s(t); }
     emitRuns(o, runs);
 }
 
